@@ -9,13 +9,17 @@
            {a:"ReadBegin", s, lim, ao}                           GetChanges started; it is now blocked in the query
            {a:"ReadQuery", lo, hi, qlim, qao, q}                 arguments the real code passed to the query, and the answer
            {a:"ReadEnd", rows}
-           {a:"Probe", results:[{s, lim, ao, rows, logs, vf, docs}..]}   every read (s, lim, ao) executed on a COPY of
-                                                                  the real cache in its current state; the copy afterwards
+           {a:"Probe", results:[{s, lim, ao, rows, same, logs, vf, docs}..]}   every read (s, lim, ao) executed on a COPY
+                                                                  of the real cache in its current state; the copy afterwards
+                                                                  (logs, vf, docs omitted when same = the copy did not change)
+           {a:"Back", n}                                          the following lines continue from the state after step n
+                                                                  of the current behaviour (the harness re-executed that
+                                                                  prefix on a fresh real cache) - shared prefixes are logged once
    rows/q = [{seq,doc,rm}..]. *)
 EXTENDS ChannelCache, TraceLib
 
-VARIABLES l, probe
-tvars == <<vars, l, probe>>
+VARIABLES l, probe, stack
+tvars == <<vars, l, probe, stack>>
 
 DTrace == <<>>     \* DocSeq / Acts are only used by Next of the base spec, never by the trace specs
 ATrace == {}
@@ -26,13 +30,26 @@ Ev(a) == l <= TraceLen /\ Trace[l].a = a /\ l' = l + 1
 Logged == logs' = Trace[l].logs /\ validFrom' = Trace[l].vf /\ cachedDocs' = LSet(Trace[l].docs)
 NoProbe == probe' = <<>>
 
-TInit == Init /\ l = 1 /\ probe = <<>>
+Snap == [logs |-> logs, validFrom |-> validFrom, cachedDocs |-> cachedDocs, truth |-> truth, pending |-> pending,
+         nextSeq |-> nextSeq, hcs |-> hcs, ever |-> ever, rd |-> rd]
+Snap1 == [logs |-> logs', validFrom |-> validFrom', cachedDocs |-> cachedDocs', truth |-> truth', pending |-> pending',
+          nextSeq |-> nextSeq', hcs |-> hcs', ever |-> ever', rd |-> rd']
+TInit == Init /\ l = 1 /\ probe = <<>> /\ stack = <<>>
 
 Reset == /\ Ev("Reset") /\ NoProbe
          /\ logs' = <<>> /\ validFrom' = 1 /\ cachedDocs' = {}
          /\ maxLen' = Trace[l].mx /\ minLen' = Trace[l].mn
          /\ truth' = {} /\ pending' = {} /\ nextSeq' = 1 /\ hcs' = 0 /\ ever' = {}
          /\ res' = NoRes /\ rd' = NoRd /\ hist' = <<>>
+         /\ stack' = <<Snap1>>
+Back == /\ Ev("Back") /\ NoProbe
+        /\ LET k == T.n + 1
+               st == stack[k] IN
+           /\ k <= Len(stack)
+           /\ logs' = st.logs /\ validFrom' = st.validFrom /\ cachedDocs' = st.cachedDocs /\ truth' = st.truth
+           /\ pending' = st.pending /\ nextSeq' = st.nextSeq /\ hcs' = st.hcs /\ ever' = st.ever /\ rd' = st.rd
+           /\ res' = NoRes /\ stack' = SubSeq(stack, 1, k)
+        /\ UNCHANGED <<maxLen, minLen, hist>>
 
 (* pass P: implementation variables := logged real state; environment/ghosts advance from the logged inputs *)
 PAdd        == Ev("Add")        /\ Logged /\ GhostWrite(E(T), TRUE)
@@ -46,11 +63,12 @@ PRead       == Ev("Read")       /\ Logged /\ GhostRead(T.s, T.lim, T.ao, T.rows)
 PReadBegin  == Ev("ReadBegin")  /\ Logged /\ GhostReadBegin(T.s, T.lim, T.ao)
 PReadQuery  == Ev("ReadQuery")  /\ Logged /\ GhostReadQuery(T.q)
 PReadEnd    == Ev("ReadEnd")    /\ Logged /\ GhostReadEnd(T.rows)
-PProbe      == Ev("Probe") /\ probe' = T.results /\ UNCHANGED <<impl, ghost>>
+PProbe      == Ev("Probe") /\ probe' = T.results /\ UNCHANGED <<impl, ghost, stack>>
+Push == stack' = Append(stack, Snap1)
 PStep == \/ (PAdd \/ PWriteLater \/ PDeliver \/ PGap \/ PPruneAge \/ PPurge \/ PRecreate \/ PRead
-             \/ PReadBegin \/ PReadQuery \/ PReadEnd) /\ NoProbe
+             \/ PReadBegin \/ PReadQuery \/ PReadEnd) /\ NoProbe /\ Push
          \/ PProbe
-PSpec == TInit /\ [][Reset \/ (PStep /\ UNCHANGED hist)]_tvars
+PSpec == TInit /\ [][Reset \/ Back \/ (PStep /\ UNCHANGED hist)]_tvars
 
 (* pass C: each logged step is an instance of the corresponding action from the previous REAL state *)
 CAdd        == PAdd        /\ ImplDeliver(E(T))
@@ -65,14 +83,15 @@ CReadBegin  == PReadBegin  /\ UNCHANGED impl /\ ~ReadStart(Cur, T.s, T.lim, T.ao
 CReadQuery  == PReadQuery  /\ UNCHANGED impl /\ T.lo = rd.s + 1 /\ T.hi = rd.vf /\ T.qlim = rd.lim /\ T.qao = rd.ao
                            /\ T.q = QueryNow       \* the harness answered from the same truth as the ghost
 CReadEnd    == PReadEnd    /\ ImplReadEnd /\ T.rows = EndRows
-CProbe      == PProbe /\ \A i \in 1..Len(T.results) :
+CProbe      == PProbe /\ LET ts == TruthSeq IN \A i \in 1..Len(T.results) :
                  LET x == T.results[i]
-                     r == AtomicRead(Cur, TruthSeq, x.s, x.lim, x.ao, maxLen) IN
-                 x.rows = r.rows /\ x.logs = r.c.logs /\ x.vf = r.c.vf /\ LSet(x.docs) = r.c.docs
+                     r == AtomicRead(Cur, ts, x.s, x.lim, x.ao, maxLen) IN
+                 /\ x.rows = r.rows
+                 /\ IF x.same THEN r.c = Cur ELSE x.logs = r.c.logs /\ x.vf = r.c.vf /\ LSet(x.docs) = r.c.docs
 CStep == \/ (CAdd \/ CWriteLater \/ CDeliver \/ CGap \/ CPruneAge \/ CPurge \/ CRecreate \/ CRead
-             \/ CReadBegin \/ CReadQuery \/ CReadEnd) /\ NoProbe
+             \/ CReadBegin \/ CReadQuery \/ CReadEnd) /\ NoProbe /\ Push
          \/ CProbe
-CSpec == TInit /\ [][Reset \/ (CStep /\ UNCHANGED hist)]_tvars
+CSpec == TInit /\ [][Reset \/ Back \/ (CStep /\ UNCHANGED hist)]_tvars
 
 Progress == Mark(l)
 Accept == PrintHWM
@@ -82,6 +101,6 @@ ProbeCorrect ==
   \A i \in 1..Len(probe) :
     LET x == probe[i] IN
     /\ ReadOK(x.rows, x.s, x.lim, x.ao)
-    /\ AscOf(x.logs) /\ OnePerDocOf(x.logs) /\ CompleteOf([logs |-> x.logs, vf |-> x.vf, docs |-> LSet(x.docs)])
-ProbeDocsIndex == \A i \in 1..Len(probe) : LSet(probe[i].docs) = DocsOf(probe[i].logs)
+    /\ x.same \/ (AscOf(x.logs) /\ OnePerDocOf(x.logs) /\ CompleteOf([logs |-> x.logs, vf |-> x.vf, docs |-> LSet(x.docs)]))
+ProbeDocsIndex == \A i \in 1..Len(probe) : probe[i].same \/ LSet(probe[i].docs) = DocsOf(probe[i].logs)
 =============================================================================
